@@ -319,7 +319,8 @@ class Pred(object):
     resolve(fn, var_node)    optional: defining expression of another local (see unique_def_resolver)
     """
 
-    def __init__(self, fn, leaf, domain=CODEPOINTS, resolve=None, char_signed=True, callee=None):
+    def __init__(self, fn, leaf, domain=CODEPOINTS, resolve=None, char_signed=True, callee=None, consts=None):
+        self.consts = consts or {}   # decl id -> integer value (e.g. the induction variable of an unrolled loop)
         self.callee = callee      # optional: callee(fn, call node, argument domain) -> (arg index, truthy argument set) | None
         self.fn = fn
         self.leaf = leaf
@@ -349,6 +350,8 @@ class Pred(object):
             except ValueError:
                 return None
         k = n.get('k')
+        if k == 'var' and n.get('d') in self.consts:
+            return self.consts[n['d']]
         if k == 'wrap' and 'sub' in n:
             return self.const(n['sub'])
         if k == 'icast' and n.get('ck') in _TRANSPARENT_CASTS:
@@ -358,6 +361,22 @@ class Pred(object):
             ty = self._ty(n)
             if v is None or ty is None:
                 return None
+            return _wrap_value(v, ty)
+        if k == 'binop' and self.consts and n.get('op') in ('+', '-', '*', '/', '%', '<<', '>>', '&', '|', '^'):
+            # constant folding is only needed (and only attempted) when an unrolled loop counter supplies constants
+            a, b = self.const(n['lhs']), self.const(n['rhs'])
+            ty = self._ty(n)
+            if a is None or b is None or ty is None:
+                return None
+            op = n['op']
+            if op in ('/', '%') and (b == 0 or a < 0 or b < 0):
+                return None
+            if op in ('<<', '>>') and not 0 <= b < 128:
+                return None
+            if op in ('>>', '&', '|', '^') and (a < 0 or (b < 0 and op != '>>')):
+                return None
+            v = {'+': lambda: a + b, '-': lambda: a - b, '*': lambda: a * b, '/': lambda: a // b, '%': lambda: a % b, '<<': lambda: a << b,
+                 '>>': lambda: a >> b, '&': lambda: a & b, '|': lambda: a | b, '^': lambda: a ^ b}[op]()
             return _wrap_value(v, ty)
         return None
 
@@ -573,7 +592,7 @@ class Pred(object):
             args = [a for a in n.get('args', []) if a is not None]
             if len(args) == 1:
                 lo, hi = self.bounds(args[0])
-                r = self.callee(fn, n, ISet.span(lo, hi))
+                r = self.callee(fn, n, ISet.span(lo, hi), self.char_signed)
                 if r is not None:
                     t = self.preimage(args[0], r[1])
                     return (t if 1 in T else EMPTY) | ((self.domain - t) if 0 in T else EMPTY)
@@ -663,7 +682,7 @@ class Pred(object):
     def value_at(self, nid, x):
         """The value of term nid when the leaf has value x (x must be in the domain); exact, via the preimage of
         singletons restricted to {x} -- implemented by a one-point domain."""
-        p = Pred(self.fn, self.leaf, ISet.of(x), self.resolve, self.char_signed, self.callee)
+        p = Pred(self.fn, self.leaf, ISet.of(x), self.resolve, self.char_signed, self.callee, self.consts)
         lo, hi = p.bounds(nid)
         if lo == hi:
             return lo
@@ -685,13 +704,13 @@ def _wrap_value(v, ty):
     return v
 
 
-def char_truth(fn, cond, leaf, signed, resolve=None):
+def char_truth(fn, cond, leaf, signed, resolve=None, callee=None):
     """Truth set of a predicate over a plain `char` read from memory, as a set of BYTE values 0..255, under one
     interpretation of plain char (signed: values -128..127, byte b >= 128 is the value b - 256)."""
     if signed:
-        s = Pred(fn, leaf, ISet.span(-128, 127), resolve, char_signed=True).truth(cond)
+        s = Pred(fn, leaf, ISet.span(-128, 127), resolve, char_signed=True, callee=callee).truth(cond)
         return s.clip(0, 127) | s.clip(-128, -1).shift(256)
-    return Pred(fn, leaf, ISet.span(0, 255), resolve, char_signed=False).truth(cond)
+    return Pred(fn, leaf, ISet.span(0, 255), resolve, char_signed=False, callee=callee).truth(cond)
 
 
 def char_truth_bytes(fn, cond, leaf, resolve=None):
